@@ -85,3 +85,15 @@ PROPS["C01"] = dict(
     trusted_base=[],
     bounded=[("c01_dask_equals_numpy", {"quick": 60, "thorough": 600})],
 )
+
+PROPS["C19"] = dict(
+    producers=[("pyvc.wrapper_check", "wrapper_items")],
+    bounded=[("c19_distance_strings_and_sphere", {"quick": 15, "thorough": 90})],
+    level="proof",
+    technique="contract-based: postconditions on the real distance functions and _ellipse_kernel (pyvc VCs -> z3), metric lemmas (NRA/LRA) over the spec functions, NIA lemma inner ellipse within outer ellipse",
+    not_decided=["great-circle triangle inequality (spherical trigonometry beyond the axiom set): bounded",
+                 "great-circle distance zero only for coincident points: bounded",
+                 "splitting of distance strings by the regular expression: bounded (generated grammar)"],
+    assumptions=["np.linspace(-h, h, 2h+1)[i] == -h + i", "trigonometric identities used as axioms: sin^2+cos^2=1, cos(u)cos(v) = (cos(u-v)+cos(u+v))/2, cos t = 1 - 2 sin^2(t/2), sin odd, cos even, asin range"],
+    trusted_base=[],
+)
